@@ -83,7 +83,10 @@ def handleVCfg (acc : Acc) (h : VHist) (kv : KV) (line : String) : Acc × VHist 
   let dp := kv.nat "dp"
   let env : Env := ⟨kv.nat "height", kv.nat "time"⟩
   let msg : InstantiateMsg :=
-    { decimalPlaces := dp, pricefeed := 4, marginEngine := some 1, insuranceFund := some 2,
+    { decimalPlaces := dp, pricefeed := 4,
+      -- `pwired=0`: the deployment left the engine and the fund unset (nobody holds those roles until they are wired)
+      marginEngine := (if kv.get? "pwired" == some "0" then none else some 1),
+      insuranceFund := (if kv.get? "pwired" == some "0" then none else some 2),
       quoteReserve := kv.nat "qr", baseReserve := kv.nat "br", fundingPeriod := kv.nat "period",
       -- the PARAMETERS of the instantiate message (`ptoll` …); the stored configuration is read from `toll` … by `parseV`
       toll := (match kv.get? "ptoll" with | some t => t.toNat?.getD 0 | none => kv.nat "toll"),
@@ -101,7 +104,8 @@ def handleVCfg (acc : Acc) (h : VHist) (kv : KV) (line : String) : Acc × VHist 
     let acc := match m with
       | .ok mv => if sameV mv impl then acc else
           reportMany acc "DISAGREE" (["C20", "C01", "C18"] ++ (if mv.cfg.toll != impl.cfg.toll || mv.cfg.spread != impl.cfg.spread then ["C12"] else [])
-              ++ (if mv.cfg.fluct != impl.cfg.fluct then ["C15"] else []) ++ (if mv.cfg.fundingPeriod != impl.cfg.fundingPeriod then ["C11"] else []))
+              ++ (if mv.cfg.fluct != impl.cfg.fluct then ["C15"] else []) ++ (if mv.cfg.fundingPeriod != impl.cfg.fundingPeriod then ["C11"] else [])
+              ++ (if mv.cfg.marginEngine != impl.cfg.marginEngine || mv.cfg.insuranceFund != impl.cfg.insuranceFund || mv.cfg.owner != impl.cfg.owner then ["C09"] else []))
             s!"vamm-instantiate-state:{diffV mv impl}" line
       | .error _ => acc
     -- Spec (C20): accepted configuration is within bounds; (C01 quantifier) reserves ≥ one unit
@@ -276,7 +280,7 @@ def handleVOp (acc : Acc) (h : VHist) (kv : KV) (line : String) : Acc × VHist :
         then acc.report "SPECFAIL" "C18" "twap-zero-interval-not-spot" line else acc
       let m := Vamm.queryTwapPrice pre env iv
       match m with
-      | .ok mr => if ok && mr == r then acc else reportMany acc "DISAGREE" ["C18", "C06", "C05"] "twap-value" line
+      | .ok mr => if ok && mr == r then acc else reportMany acc "DISAGREE" ["C18", "C06", "C05", "C11"] "twap-value" line
       | .error e => let acc := acc.cover s!"vamm.{op}:{errTagOf e}"; if ok then acc.report "DISAGREE" "C18" "twap-accept" line else acc
     | "q_iotwap" =>
       let dir := dirOf (kv.nat "dir")
